@@ -2,7 +2,7 @@
 from . import core
 from .sinkcommon import run_sink_property
 
-RULE = ("Every sink call of real HTML parses (vocabulary-family enumerations of tag soup as documents and as fragments "
+RULE = ("Every sink call of real HTML parses and of real xml5ever parses (XML soup and structured namespace-rich documents); HTML:  (vocabulary-family enumerations of tag soup as documents and as fragments "
         "under 34 context elements, both scripting settings; random tag soup) is logged by a monitoring sink and "
         "replayed by TLC on the abstract Dom specification, whose operations are enabled only under the documented "
         "contract: element-only operations on elements of the right kind, append of parent-less nodes, no insertion "
@@ -13,6 +13,8 @@ def run(tier, seed, replay=None):
     N = core.NCPU
     q = tier == "quick"
     plans = [
+        ("xml-soup", ["xml", "--mode", "sink", "--gen", "text", "--n", 1500 if q else 20000], N),
+        ("xml-structured", ["xml", "--mode", "sink", "--n", 1500 if q else 20000], N),
         ("enum-families-k3", ["parse", "--mode", "enum", "--k", 3, "--pieces", 12 if q else 16], N),
         ("enum-families-k4", ["parse", "--mode", "enum", "--k", 4, "--pieces", 10], N * 2, "thorough"),
         ("random", ["parse", "--mode", "random", "--n", 1500 if q else 20000, "--maxpieces", 14], N),
@@ -20,5 +22,6 @@ def run(tier, seed, replay=None):
     return run_sink_property("C05", RULE, tier, seed, replay, plans,
                              ["only the promises the property lists are judged; what a particular sink may additionally need "
                               "(e.g. that the reference sibling has a parent) is not",
-                              "XML tree builder traces are added with the XML harness"],
+                              "'same qualified name' is judged literally (prefix and local name): the XML tree builder may hand "
+                              "over x and z:x with z unbound; for HTML parses this coincides with the expanded name"],
                              mc=[("MC_Dom", "MC_Dom.tla", "MC_Dom.cfg", "MC_Dom_thorough.cfg")])
